@@ -357,6 +357,9 @@ UNITS += [
 ]
 
 KANI = []
+# check reads the repository through the in-memory index: the index units of C17's spec (lookup succeeds iff listed)
+SATELLITES = [("C17", "*")]
+
 META = {"not_covered": [
     "completeness ('every damage is reported or harmless') and the link to restorability: whole-repository statements",
     "check_trees' threaded tree walk (its per-tree node loop IS a unit), the rayon iteration of check_cache_files (its per-file closure IS a unit), check_packs' index stream (threads); the BTreeMap/HashMap of the list comparisons are stubs with map semantics",
